@@ -529,7 +529,10 @@ func GenFileSpec(r *Rng, depth, maxDepth int, aligned bool) *uefigen.File {
 	}
 	f.Type = byte(r.Pick(7, 7, 9, 5, 4, 7, 9))
 	nested := depth < maxDepth && r.Chance(1, 4)
-	if nested {
+	if nested && f.GUID[0]%3 != 0 {
+		// mostly the FV-image file type; otherwise the volume-image section sits in a driver,
+		// application or core file (legal; fiano parses it and Find lists its files). Decided by a
+		// byte that is drawn anyway, so that the random stream of the other draws is unchanged
 		f.Type = 11
 	}
 	n := r.Range(1, 3)
